@@ -40,6 +40,7 @@ META = dict(
 )
 MODULE = "OPM.Properties.C33"
 REQUIRED = ["OPM.C33.notified_iff", "OPM.C33.notified_only_entitled", "OPM.C33.contributor_not_notified",
+            "OPM.C33.contribute_notifies_iff", "OPM.C33.acting_user_never_notified", "OPM.C33.contribute_only_entitled",
             "OPM.C33.notified_at_most_once", "OPM.C33.notified_at_most_once_reachable", "OPM.C33.run_wf",
             "OPM.C33.entitling_row_unique"]
 
@@ -613,8 +614,10 @@ def _count(ctx: Check, case) -> None:
 
 def run(ctx: Check) -> int:
     ctx.prove(MODULE, REQUIRED)
+    _init_topics()
     corpus = [c for c in load_corpus(ctx.id) if "ops" in c]
     small = gen_exhaustive() + gen_shared()
+    e2e = gen_e2e_small() + gen_e2e(ctx, ctx.n(250, 5000))
     rnd = gen_random(ctx, ctx.n(700, 15000))
     bad = gen_malformed(ctx, ctx.n(200, 4000))
     like = gen_like()
@@ -627,27 +630,36 @@ def run(ctx: Check) -> int:
                 "own endpoints re-posted): 1-5 users, 0-3 rows each, re-saved preferences, deletions, "
                 "2-6 publishes. malformed: not configured, stale / boundary / zero / missing timestamps, rows without "
                 "preferences, contributors without id, deleted and unknown rows. like: every 0/1/2-element topic list x "
-                "every topic through get_notification_preferences_for_topic. Non-trivial = a publish about a unit that "
+                "every topic through get_notification_preferences_for_topic. e2e: a registered engine and the REAL FromFrontend "
+                "requests save_method / request_cancel / request_force / excute_command / excute_control_button_command "
+                "(dispatcher answering ok) with the real WebPushPublisher behind them, so the notification is built by "
+                "publish_new_contributor_notification: every request kind x scope of the acting user x run active or not x "
+                "repeated (60) + random databases with 2-6 requests (anonymous users, repeated contributors, idle engines, not "
+                "configured). Topics are numbered by their position in NotificationTopic of the tree under test. Non-trivial = a publish about a unit that "
                 "requires roles, or a new-contributor publish.")
     all_cases: list[dict] = []
-    for name, cases in (("corpus+small", corpus + small), ("random", rnd), ("malformed", bad), ("like", like)):
+    for name, cases in (("corpus+small", corpus + small), ("random", rnd), ("malformed", bad), ("like", like),
+                        ("e2e", e2e)):
         _o, mout = ctx.correspond(name, "WebPush", cases, op_lines, impl_lines, nontrivial=is_nontrivial,
                                   impl_timeout=60.0)
         if name == "random" and mout:
             ctx.selftest(name, "WebPush", cases, lambda c: op_lines(c, "pubmut"), mout)
+        if name == "e2e" and mout:
+            ctx.selftest(name, "WebPush", cases, lambda c: op_lines(c, act="actmut"), mout)
         all_cases += cases
     for c in all_cases:
         _count(ctx, c)
     ctx.monitor(all_cases, oracle, impl_timeout=60.0)
     ctx.exhaustive = True
     ctx.extra["exhaustive_scope"] = ("single user / single subscription: all 1152 combinations of the inputs the targeting "
-                                     "reads; LIKE-vs-membership: all topic lists of length <= 2 and the 9 lists of length 8; "
+                                     "reads; LIKE-vs-membership: all topic lists of length <= 2 and the lists that lack one topic; "
                                      "multi-user histories are sampled")
     ctx.assumptions = ["preferences are written through WebPushRepository.store_notifications_preferences (topics are "
                        "NotificationTopic values)", "a subscription = one subscribe call of a user with an endpoint (the code as it is stores one row per call; the "
                        "oracle derives the subscriptions from the history, not from the table)",
                        "time.time() inside webpush_publisher is pinned during a case"]
-    return ctx.finish(search=lambda c: c.monitor(gen_shared() + gen_random(c, 1500) + gen_exhaustive(), oracle, impl_timeout=60.0))
+    return ctx.finish(search=lambda c: c.monitor(gen_e2e_small() + gen_shared() + gen_e2e(c, 500) + gen_random(c, 1500)
+                                                  + gen_exhaustive(), oracle, impl_timeout=60.0))
 
 
 def replay(obj) -> int:
@@ -655,9 +667,10 @@ def replay(obj) -> int:
     if not isinstance(case, dict) or "ops" not in case:
         print(json.dumps(obj, indent=1))
         return 0
+    _init_topics()
     impl = impl_lines(case)
     model = drive("WebPush", [op_lines(case)])[0]
-    for op, a, b in zip(case["ops"], impl, model):
+    for op, a, b in zip([["config", NEW_CONTRIBUTOR]] + case["ops"], impl, model):
         print(f"{str(op):90} impl {a:14} model {b}" + ("" if a == b else "   <-- differs"))
     fs = oracle(case) or []
     for f in fs:
